@@ -529,6 +529,49 @@ def r155(ctx):
                 ctx.bad(rid, n, f"Path.ordermin / ordermax memoise their result in {sorted(memo)}, but {q} changes the frame list of `{obj}` (`{short(n, 50)}`) without invalidating it: the classification (crossing, middle) and the weights are then computed from the extremes of an earlier frame list while start / end use the real frames", construct=f"{q}: frames changed, memo {sorted(memo)} kept")
 
 
+def r156(ctx):
+    """The extreme is taken over the quantity that is reported: in ordermin / ordermax the
+    per-frame expression inside argmin / argmax is, frame for frame, the expression returned for
+    the selected frame (the first component of the order parameter), argmin for the minimum and
+    argmax for the maximum."""
+    rid = "R-15.6"
+    tree = ctx.tree
+    cls = tree.cls(PATH, "Path")
+    methods = {s.name: s for s in cls.body if isinstance(s, FUNC)}
+    for name, want in (("ordermin", "argmin"), ("ordermax", "argmax")):
+        g = methods[name]
+        fl = flow_of(g)
+        calls = [c for c in walk_local(g) if isinstance(c, ast.Call) and last_name(c) in ("argmin", "argmax", "nanargmin", "nanargmax") and c.args]
+        if len(calls) != 1:
+            raise AnalysisError(f"R-15.6: Path.{name} does not take exactly one argmin / argmax")
+        c = calls[0]
+        if want not in last_name(c):
+            ctx.bad(rid, c, f"Path.{name} selects its frame with {last_name(c)}", construct=f"Path.{name}: {last_name(c)}")
+            continue
+        comp, _ = deref(fl, c.args[0], fl.cfg.node_of(c))
+        if not (isinstance(comp, (ast.ListComp, ast.GeneratorExp)) and len(comp.generators) == 1 and isinstance(comp.generators[0].target, ast.Name) and ast.unparse(comp.generators[0].iter) == "self.phasepoints"):
+            raise AnalysisError(f"R-15.6: Path.{name}: the argument of {want} is not a comprehension over self.phasepoints")
+        var = comp.generators[0].target.id
+        st = c
+        while st is not None and not isinstance(st, ast.stmt):
+            st = getattr(st, "_parent", None)
+        idx = st.targets[0].id if isinstance(st, ast.Assign) and isinstance(st.targets[0], ast.Name) else None
+        rets = [r for r in walk_local(g) if isinstance(r, ast.Return)]
+        okr = False
+        for r in rets:
+            v, _ = deref(fl, r.value, fl.cfg.node_of(r))
+            first = v.elts[0] if isinstance(v, ast.Tuple) and v.elts else v
+            first, _ = deref(fl, first, fl.cfg.node_of(r))
+            per_frame = ast.unparse(comp.elt).replace(" ", "")
+            import re as _re
+            selected = _re.sub(r"\b" + _re.escape(var) + r"\b", f"self.phasepoints[{idx}]", per_frame) if idx else None
+            if selected and ast.unparse(first).replace(" ", "") == selected:
+                okr = True
+                ctx.ok(rid, c, f"Path.{name}: {want} over `{per_frame}` and the value returned for the selected frame are the same per-frame quantity")
+            else:
+                ctx.bad(rid, c, f"Path.{name} takes {want} over `{per_frame}` per frame but returns `{short(first, 40)}` for the selected frame: with order parameters of several components the index is taken over other (or flattened) values, so the reported extreme belongs to an unrelated frame and the crossing / middle classification disagrees with the real extreme values", construct=f"Path.{name}: {want} over {per_frame}")
+
+
 def run(ctx):
     ctx.rule("R-15.2", "optional interface parameters of the classification functions are tested with `is None`, never by truthiness (an interface at 0.0 is a legal value)", floor=2)
     ctx.rule("R-15.4", "crossing test and start/end classifiers agree on a frame exactly on an interface (inclusive end point <=> inclusive upper bound of `min < l <= max`)", floor=2)
@@ -540,9 +583,14 @@ def run(ctx):
     ctx.attempt(r154, ctx)
     ctx.rule("R-15.5", "the extreme values used by the classification are those of the current frames: recomputed on every call, or memoised with invalidation at every site that changes a frame list", floor=2)
     ctx.attempt(r155, ctx)
+    ctx.rule("R-15.6", "the extreme is taken over the quantity that is reported (first component of the order parameter; argmin for the minimum, argmax for the maximum)", floor=2)
+    ctx.attempt(r156, ctx)
 
 
 VARIANTS = [
+    B("c15-extreme-over-all-components", PATH, "        idx = np.argmax([i.order[0] for i in self.phasepoints])", "        idx = np.argmax([i.order for i in self.phasepoints])", "R-15.6", control=True, why="seeded C15_h"),
+    B("c15-minimum-by-argmax", PATH, "        idx = np.argmin([i.order[0] for i in self.phasepoints])", "        idx = np.argmax([i.order[0] for i in self.phasepoints])", "R-15.6"),
+    K("c15-keep-extreme-comprehension-renamed", PATH, "        idx = np.argmax([i.order[0] for i in self.phasepoints])", "        idx = np.argmax([frame.order[0] for frame in self.phasepoints])"),
     B("c15-extremes-memoised-without-invalidation", PATH, '        idx = np.argmin([i.order[0] for i in self.phasepoints])\n        return (self.phasepoints[idx].order[0], idx)', '        if "min" not in self._extremes:\n            idx = np.argmin([i.order[0] for i in self.phasepoints])\n            self._extremes["min"] = (self.phasepoints[idx].order[0], idx)\n        return self._extremes["min"]', "R-15.5", control=True, why="seeded C15_g",
       also=[(PATH, '        self.time_origin = time_origin\n', '        self.time_origin = time_origin\n        self._extremes = {}\n'), (PATH, '            self.phasepoints.append(phasepoint)\n            return True', '            self.phasepoints.append(phasepoint)\n            self._extremes.clear()\n            return True')]),
     B("c15-paste-slice-off-by-one", PATH, '    first = True\n    for phasepoint in path_forw.phasepoints:\n        if first and overlap:\n            first = False\n            continue\n        app = new_path.append(phasepoint)\n        if not app:\n            msg = f"Truncated path at: {new_path.length}"\n            logger.warning(msg)\n            return new_path\n    return new_path\n', '    start = 1 if overlap else 0\n    stop = None if maxlen is None else maxlen - new_path.length + 1\n    new_path.phasepoints.extend(path_forw.phasepoints[start:stop])\n    return new_path\n', "R-15.3", why="seeded C15_f"),
